@@ -434,8 +434,16 @@ fn levels(k: K) -> i128 {
     }
 }
 /// field-level near-tie test for clamped kinds
+/// tie tolerance in steps: 2^-12, widened to 2^(b-23) for fields of more than 11 bits that are
+/// evaluated in binary32 (`x * 65535.0 + 0.5` carries 8 bits below the unit)
+fn tol_steps(k: K) -> Q {
+    match k {
+        U(b) if b > 11 => Q::pow2(b as i32 - 23),
+        _ => Q::pow2(-12),
+    }
+}
 fn near_tie_field(k: K, c: FC, e9_scale: Option<Q>) -> bool {
-    let tol = Q::pow2(-12);
+    let tol = tol_steps(k);
     match k {
         U(_) | S(_) => near_half(clamp01(c).mul(Q::int(levels(k))), tol),
         Xr => match c {
@@ -508,10 +516,10 @@ fn yuv_ideal(m: u32, rgb: [Q; 3]) -> [Q; 3] {
     }
     out
 }
-/// tame for the YUV matrix: every channel 0 or 2^-40 <= |x| < 2^24
+/// tame for the YUV matrix: every channel 0 or 2^-40 <= |x| <= 5/4
 fn yuv_tame(c: FC) -> Option<Q> {
     match c {
-        FC::Fin(q) if q.abs().lt(Q::pow2(24)) => Some(q),
+        FC::Fin(q) if q.abs().le(Q::new(5, 4)) => Some(q),
         _ => None,
     }
 }
@@ -530,7 +538,7 @@ fn pixel_loose(f: &Fm, px: [V; 4], int_line: bool) -> bool {
                 return true;
             }
         }
-        if f.k[3] != No && !int_line && near_tie_field(f.k[3], cl[3], None) {
+        if f.k[3] != No && (cl[3] == FC::Nan || near_tie_field(f.k[3], cl[3], None)) {
             return true;
         }
         return false;
@@ -538,10 +546,13 @@ fn pixel_loose(f: &Fm, px: [V; 4], int_line: bool) -> bool {
     let _ = int_line;
     if f.cls == Rgbg {
         // R and B are handled at block level
-        return near_tie_field(U(8), cl[1], None);
+        return cl[1] == FC::Nan || near_tie_field(U(8), cl[1], None);
     }
     let tol = Q::pow2(-12);
     if f.k[0] == E9 {
+        if cl[..3].contains(&FC::Nan) {
+            return true;
+        }
         let cs = [e9_clamp(cl[0]), e9_clamp(cl[1]), e9_clamp(cl[2])];
         let mut mx = cs[0];
         for x in &cs[1..] {
@@ -573,7 +584,7 @@ fn pixel_loose(f: &Fm, px: [V; 4], int_line: bool) -> bool {
                 _ => {}
             },
             k => {
-                if near_tie_field(k, cl[c], None) {
+                if cl[c] == FC::Nan || near_tie_field(k, cl[c], None) {
                     return true;
                 }
             }
@@ -779,15 +790,15 @@ fn half_ulp(k: K, c: Q) -> Q {
 /// bound (in units of one code of the m-bit YUV format) on |decoded RGB - clamped input| for
 /// block-constant input. Not documented by the crate; see notes/C12.md (assumption A1).
 fn yuv_bound(f: &Fm, c: usize) -> Q {
-    let base = match c {
-        0 => Q::new(3, 2),
-        1 => Q::new(3, 2),
-        _ => Q::new(2, 1),
-    };
-    match f.name {
-        // Y210 keeps the top 10 bits of the 16-bit codes (truncation, and 65535/64 != 1023)
-        "Y210" => base.mul(Q::int(3)),
-        _ => base,
+    // half a code in each of Y,U,V through the inverse matrix gives 1.380 / 1.185 / 1.591 codes for
+    // R / G / B; measured maxima on the unchanged code 1.406 / 1.230 / 1.652 (Y416).
+    // Y210 keeps the top 10 bits of 16-bit codes (truncation; 65535/64 != 1023): measured 2.45 / 1.88 / 2.82.
+    match (f.name, c) {
+        ("Y210", 0) => Q::int(3),
+        ("Y210", 1) => Q::new(5, 2),
+        ("Y210", _) => Q::new(7, 2),
+        (_, 0) | (_, 1) => Q::new(3, 2),
+        _ => Q::int(2),
     }
 }
 
@@ -816,14 +827,21 @@ fn vshow(v: V) -> String {
 /// nearest clause for one stored channel of one pixel; `dec` = decoded binary32 bits
 fn check_nearest(o: &mut Oracle, f: &Fm, c: usize, k: K, v: V, dec: u32, at: usize, e9sc: Option<Q>, int_line: bool) {
     let cls = v.class();
+    if cls == FC::Nan {
+        // NaN has no clamped real value: the property demands nothing (notes/C12.md, observation O1)
+        return;
+    }
     let d = dec_f32_q(dec);
     let cname = ["R", "G", "B", "A"][c];
     let fail = |o: &mut Oracle, what: String| {
-        let tag = if cls == FC::Nan && !matches!(k, H16 | F11 | F10) { "nan" } else { "nearest" };
+        let tag = match (k, cls) {
+            (F11 | F10, FC::Fin(q)) if q.n > 0 && q.lt(Q::pow2(-14)) => "subnormal",
+            _ => "nearest",
+        };
         o.say(format!("{tag}: {} pixel {at} channel {cname} input {} decoded f32:{dec:08x}: {what}", f.name, vshow(v)));
     };
     // tolerance for arbitrary f32 input: 2^-12 of a step; none for integer input
-    let slack = |step: Q| if int_line { Q::int(0) } else { step.mul(Q::pow2(-12)) };
+    let slack = |step: Q| if int_line { Q::int(0) } else { step.mul(tol_steps(k)) };
     // representation error of the decoded binary32 itself (value in [-2,2]): 2^-24
     let rep = Q::pow2(-24);
     match k {
@@ -1017,6 +1035,9 @@ fn run_oracle(o: &mut Oracle, f: &Fm, img: &Img, p: Prec, bytes: &[u8], int_line
                 _ => unreachable!(),
             };
             let cl = [px[0].class(), px[1].class(), px[2].class()];
+            if cl.contains(&FC::Nan) {
+                continue;
+            }
             // the matrix is only meaningful for input in [0,1]; outside it the property's
             // "clamped input" is still the reference
             for c in 0..3 {
@@ -1027,6 +1048,12 @@ fn run_oracle(o: &mut Oracle, f: &Fm, img: &Img, p: Prec, bytes: &[u8], int_line
                     FC::Fin(dq) => dq.sub(want).abs().le(bound),
                     _ => false,
                 };
+                if std::env::var("C12_STAT").is_ok() {
+                    if let (FC::Fin(dq), true) = (d, cl.iter().all(|c| matches!(c, FC::Fin(q) if q.n >= 0 && q.le(Q::int(1))))) {
+                        let e = dq.sub(want).abs().mul(Q::int((1i128 << m) - 1));
+                        eprintln!("STAT {} {} {}", f.name, c, (e.n * 1000 / e.d) as f64 / 1000.0);
+                    }
+                }
                 if !ok {
                     let inr = cl.iter().all(|c| matches!(c, FC::Fin(q) if q.n >= 0 && q.le(Q::int(1))));
                     o.say(format!(
@@ -1273,7 +1300,7 @@ pub fn run(line: &str) -> Option<(String, Vec<String>)> {
             let (precs, pl): (&[Prec], Prec) = if bits == 8 { (&[Prec::U8, Prec::U16, Prec::F32], Prec::U8) } else { (&[Prec::U16, Prec::F32], Prec::U16) };
             Some(run_image(f, fam, &img, precs, pl, true))
         }
-        "f32" => {
+        kind @ ("f32" | "f32s" | "f32x") => {
             let f = find(t.get(1)?)?;
             let fam = fam_of(t.get(2)?)?;
             let w = p_usize(t.get(3)?)?;
@@ -1281,6 +1308,13 @@ pub fn run(line: &str) -> Option<(String, Vec<String>)> {
             let vals: Option<Vec<u32>> = t.get(5)?.split(',').map(|s| u32::from_str_radix(s, 16).ok()).collect();
             let vals = vals?;
             if vals.is_empty() || w == 0 || h == 0 || w * h > 1 << 20 {
+                return None;
+            }
+            // `f32`: every value 0 or in [2^-14, 1]; `f32s`: every value in [0, 1]; `f32x`: anything
+            if kind != "f32x" && vals.iter().any(|v| *v > 0x3F80_0000) {
+                return None;
+            }
+            if kind == "f32" && vals.iter().any(|v| *v != 0 && *v < 0x3880_0000) {
                 return None;
             }
             let nch = match fam {
@@ -1311,6 +1345,15 @@ pub fn run(line: &str) -> Option<(String, Vec<String>)> {
 // ------------------------------------------------------------------------------------------
 // generator
 
+fn f32_kind(v: &[u32]) -> &'static str {
+    if v.iter().any(|x| *x > 0x3F80_0000) {
+        "f32x"
+    } else if v.iter().any(|x| *x != 0 && *x < 0x3880_0000) {
+        "f32s"
+    } else {
+        "f32"
+    }
+}
 fn hexlist(v: &[u32]) -> String {
     v.iter().map(|x| format!("{x:08x}")).collect::<Vec<_>>().join(",")
 }
@@ -1336,11 +1379,20 @@ fn f32_grid(l: u32, rng: &mut Rng, n: usize) -> Vec<u32> {
     v
 }
 
-pub const SPECIALS: [u32; 28] = [
-    0x0000_0000, 0x8000_0000, 0x0000_0001, 0x007F_FFFF, 0x0080_0000, 0x8000_0001, 0x3F80_0000, 0x3F80_0001, 0x3F7F_FFFF,
-    0x3F00_0000, 0x4000_0000, 0x4120_0000, 0xBF80_0000, 0xBDCC_CCCD, 0x3DCC_CCCD, 0x7F7F_FFFF, 0xFF7F_FFFF, 0x477F_E000,
-    0x3380_0000, 0x3300_0001, 0x3880_0000, 0x387F_C000, 0x3580_0000, 0x42C8_0000,
-    0x35F3_3333, 0x3639_999A, 0x3400_0001, 0x37FF_E000,
+/// in [0,1], zero or at least 2^-14
+pub const SPEC_IN: [u32; 12] = [
+    0x0000_0000, 0x3F80_0000, 0x3F7F_FFFF, 0x3F00_0000, 0x3EFF_FFFF, 0x3F00_0001, 0x3DCC_CCCD, 0x3880_0000, 0x3880_0001,
+    0x3B80_8081, 0x3C00_0000, 0x3E80_0000,
+];
+/// positive, below 2^-14 (binary32 subnormals, binary16 / 11-bit / 10-bit float subnormal range)
+pub const SPEC_SMALL: [u32; 14] = [
+    0x0000_0001, 0x007F_FFFF, 0x0080_0000, 0x3380_0000, 0x3300_0000, 0x3300_0001, 0x387F_C000, 0x3580_0000, 0x35F3_3333,
+    0x3639_999A, 0x3400_0001, 0x37FF_E000, 0x3600_0000, 0x3640_0000,
+];
+/// outside [0,1], -0, huge
+pub const SPEC_OUT: [u32; 14] = [
+    0x8000_0000, 0x8000_0001, 0x3F80_0001, 0x4000_0000, 0x4120_0000, 0xBF80_0000, 0xBDCC_CCCD, 0x7F7F_FFFF, 0xFF7F_FFFF,
+    0x477F_E000, 0x42C8_0000, 0x3FA0_0000, 0xBE80_0000, 0x3F00_0000,
 ];
 pub const NONFINITE: [u32; 4] = [0x7F80_0000, 0xFF80_0000, 0x7FC0_0000, 0xFFC0_0001];
 
@@ -1370,7 +1422,10 @@ pub fn gen(seed: u64, thorough: bool) -> Vec<String> {
         out.push(format!("sup {}", f.name));
     }
     let fams = [Fam::G, Fam::A, Fam::Rgb, Fam::Rgba];
+    let head = std::mem::take(&mut out);
+    let mut per_format: Vec<Vec<String>> = vec![];
     for f in FORMATS.iter() {
+        let mut out: Vec<String> = vec![];
         let blocky = f.cls != Plain && !matches!(f.cls, Yuv(_));
         // ---- 8-bit: every channel value, every colour format, every geometry
         for (gi, &(w, h)) in geoms(f, thorough).iter().enumerate() {
@@ -1400,9 +1455,15 @@ pub fn gen(seed: u64, thorough: bool) -> Vec<String> {
         let per = (w * h) as u64;
         let lines = (65536 + per - 1) / per;
         for i in 0..lines {
-            for fam in [Fam::Rgba, Fam::G] {
-                let pat = if blocky && fam == Fam::G { 1 } else { 0 };
-                out.push(format!("int {} 16 {} {} {} {} {}", f.name, fam_name(fam), pat, w, h, i * per));
+            out.push(format!("int {} 16 rgba 0 {} {} {}", f.name, w, h, i * per));
+            if blocky {
+                // block-constant ramps: the wider-bound clause is checked on these
+                out.push(format!("int {} 16 rgb 1 {} {} {}", f.name, w, h, 2 * i * per));
+            }
+            if thorough || i % 16 == 3 {
+                for fam in [Fam::G, Fam::A, Fam::Rgb] {
+                    out.push(format!("int {} 16 {} {} {} {} {}", f.name, fam_name(fam), if blocky { 3 } else { 0 }, w, h, i * per + 11));
+                }
             }
         }
         if thorough {
@@ -1432,22 +1493,35 @@ pub fn gen(seed: u64, thorough: bool) -> Vec<String> {
         let (w, h) = if matches!(f.cls, Bi(_)) { (514, 2) } else { (513, 1) };
         let reps = if thorough { 24 } else { 3 };
         for fam in fams {
-            // finite specials (subnormals, -0, out of range, huge)
-            out.push(format!("f32 {} {} {} {} {}", f.name, fam_name(fam), w, h, hexlist(&SPECIALS)));
+            // finite specials: in range, subnormal range, out of range / -0 / huge
+            out.push(format!("f32 {} {} {} {} {}", f.name, fam_name(fam), w, h, hexlist(&SPEC_IN)));
+            out.push(format!("f32s {} {} {} {} {}", f.name, fam_name(fam), w, h, hexlist(&SPEC_SMALL)));
+            out.push(format!("f32x {} {} {} {} {}", f.name, fam_name(fam), w, h, hexlist(&SPEC_OUT)));
             for r in 0..reps {
                 let l = lv[r % lv.len()];
                 let vals = f32_grid(l, &mut rng, 61);
-                out.push(format!("f32 {} {} {} {} {}", f.name, fam_name(fam), w, h, hexlist(&vals)));
+                out.push(format!("{} {} {} {} {} {}", f32_kind(&vals), f.name, fam_name(fam), w, h, hexlist(&vals)));
             }
             // non-finite input, alone on small lines
             for nf in NONFINITE {
-                out.push(format!("f32 {} {} {} {} {}", f.name, fam_name(fam), if matches!(f.cls, Bi(_)) { 2 } else { 3 }, if matches!(f.cls, Bi(_)) { 2 } else { 1 }, hexlist(&[nf, 0x3F00_0000, nf, 0x3E80_0000, 0x3F40_0000])));
+                out.push(format!("f32x {} {} {} {} {}", f.name, fam_name(fam), if matches!(f.cls, Bi(_)) { 2 } else { 3 }, if matches!(f.cls, Bi(_)) { 2 } else { 1 }, hexlist(&[nf, 0x3F00_0000, nf, 0x3E80_0000, 0x3F40_0000])));
             }
         }
         // one odd size for the bi-planar formats (InvalidSize)
         if matches!(f.cls, Bi(_)) {
             out.push(format!("int {} 8 rgb 0 3 2 0", f.name));
             out.push(format!("int {} 8 rgb 0 2 3 0", f.name));
+        }
+        per_format.push(out);
+    }
+    // round-robin over the formats so that contiguous chunks of the stream cost about the same
+    let mut out = head;
+    let longest = per_format.iter().map(|v| v.len()).max().unwrap_or(0);
+    for i in 0..longest {
+        for v in per_format.iter() {
+            if let Some(l) = v.get(i) {
+                out.push(l.clone());
+            }
         }
     }
     out
